@@ -937,7 +937,39 @@ int ext2_stale_ok(int id, int kind, int band)
 	return ext3_stale_ok(id, kind, band);
 }
 void ext2_wait_block(struct rthr *th) { ext3_wait_block(th); }
-void ext2_time_advance(int64_t from, int64_t to) { (void)from; ext3_time_advance(to); }
+/* Time is about to move on from `from` (nobody is runnable at `from`): every kill that the closing
+ * sequence of a popen request owed before that instant must have been sent by now, as long as the child
+ * is still alive and the owner's loop is running. */
+static void popen_check_missing(int64_t from)
+{
+	int i;
+	for (i = 0; i < PL->nobj; i++) {
+		struct robj *o = &RO[i];
+		int c, n, k;
+		pid_t pid;
+		if (PL->obj[i].kind != K_POPEN || !o->xi[PX_CLOSED] || !o->xi[PX_ALIVE_AT_CLOSE])
+			continue;
+		c = (int)PL->obj[i].p[1];
+		pid = (pid_t)RO[c].xi[CX_PID];
+		if (RO[c].xi[CX_DEAD] || simk_child_serial(pid) != RO[c].xi[CX_SERIAL] || !RT[PL->obj[i].owner].in_main)
+			continue;
+		n = simk_child_nsigs(pid);
+		for (k = n; k < 32; k++) {
+			int64_t hi = o->xi[PX_T0] + 5000000000LL * k + 1000000LL * (k + 1);
+			if (hi + 1000000000LL >= from)	/* a second of slack: a missing kill stays missing */
+				break;
+			viol("C19.schedule", "popen obj %d: the child is still running %" PRId64 " ns after the close, but signal #%d (due at +%" PRId64 " ns) was never sent",
+			     i, from - o->xi[PX_T0], k + 1, (int64_t)(5000000000LL * k));
+			break;
+		}
+	}
+}
+
+void ext2_time_advance(int64_t from, int64_t to)
+{
+	popen_check_missing(from);
+	ext3_time_advance(to);
+}
 
 const char *ext2_uaf_prop(void)
 {
